@@ -67,7 +67,7 @@ func (a *APK) AddInstalledPackage(pkg *Package, files []tar.Header) error {
 		group := f.Gid
 
 		if f.Typeflag == tar.TypeDir {
-			dirName := strings.TrimSuffix(f.Name, fmt.Sprintf("%c", filepath.Separator))
+			dirName := strings.TrimRight(f.Name, fmt.Sprintf("%c", filepath.Separator))
 			pkgLines = append(pkgLines, fmt.Sprintf("F:%s", dirName))
 			if perm != 0o755 || user != 0 || group != 0 {
 				pkgLines = append(pkgLines, fmt.Sprintf("M:%d:%d:%04o", user, group, perm))
